@@ -1,7 +1,7 @@
 --------------------------- MODULE Trace_ConnLife ---------------------------
 (* impl -> spec: vh-sim runs with close points / idle periods, judged against ConnLife.tla *)
 EXTENDS ConnLife, TLC, Json, IOUtils, Integers
-VARIABLE l
+VARIABLES l, flag
 Rec_ == ndJsonDeserialize(IOEnv.TRACE)
 NE == Len(Rec_)
 e == Rec_[l]
@@ -21,13 +21,17 @@ TApp == Ev("app") /\ k' = (CASE e.op = "close" -> AppClose(k, e.side, e.t)
                              [] e.op = "wdone" -> WriteDone(k, e.side, e.sid, e.t)
                              [] e.op = "workload_done" -> TasksDone(k, "cli", e.t)
                              [] e.op = "conn_done" -> TasksDone(k, "srv", e.t)
+                             [] e.op = "accepted_conn" -> Accepted(k, "srv")
                              [] OTHER -> k)
 TPanic == Ev("panic") /\ k' = Fail(k, "panic inside the stack")
 TFinal == Ev("final") /\ k' = Final(k, e.cli_done, e.srv_done, e.t)
 
-TraceInit == l = 1 /\ k = LInit(0, FALSE)
-TraceNext == TReset \/ TDgram \/ TDlv \/ TUndeliverable \/ TQ \/ TApp \/ TPanic \/ TFinal
+TraceInit == l = 1 /\ k = LInit(0, FALSE) /\ flag = FALSE
+TraceNext == (TReset \/ TDgram \/ TDlv \/ TUndeliverable \/ TQ \/ TApp \/ TPanic \/ TFinal)
+             /\ flag' = (k.ok /\ ~k'.ok)
 ContractHolds == k.ok \/ PrintT(<<"CONTRACT", k.why>>) = FALSE
+\* reported once, at the step that broke the contract; validation of the following runs continues
+SoftContract == ~flag \/ PrintT(<<"SOFT_VIOLATION", "Contract", l, k.why>>)
 TraceAccepted ==
     LET d == TLCGet("stats").diameter IN
     IF d - 1 = NE THEN TRUE
